@@ -401,6 +401,9 @@ type SynAckSpec struct {
 	TSOptLen      int    `json:"ts_opt_len,omitempty"` // malformed timestamp option data length (0 = normal 8)
 	Copies        int    `json:"copies,omitempty"`
 	WrongFirst    bool   `json:"wrong_first,omitempty"` // precede with a SYN-ACK of another flow
+	NoiseKind     string `json:"noise_kind,omitempty"`  // precede the genuine SYN-ACK with mutations of it (see Listener.Mutate)
+	NoiseArg      int    `json:"noise_arg,omitempty"`
+	NoiseForeign  bool   `json:"noise_foreign,omitempty"` // the mutated SYN-ACKs belong to another flow (client port differs)
 }
 
 type Listener struct {
@@ -411,6 +414,9 @@ type Listener struct {
 	conns    []net.Conn
 	// Client is filled when the first connection is accepted
 	OnAccept func(n *Net, l *Listener, client netip.AddrPort)
+	// Mutate returns the noise variants of a packet (installed by the harness)
+	Mutate func(kind string, arg int, raw []byte) [][]byte
+	Expect int // number of connections to wait for before polling stops (default 1)
 }
 
 // Listen opens a real TCP listener on addr (inside the check's private network namespace).
@@ -427,7 +433,13 @@ func (n *Net) Listen(addr netip.AddrPort, spec SynAckSpec) (*Listener, error) {
 
 func (n *Net) pollListeners() {
 	for _, l := range n.Listeners {
-		l.poll(n)
+		exp := l.Expect
+		if exp == 0 {
+			exp = 1
+		}
+		if len(l.Accepted) < exp {
+			l.poll(n)
+		}
 	}
 }
 
@@ -469,6 +481,18 @@ func (l *Listener) poll(n *Net) {
 			other := netip.AddrPortFrom(client.Addr(), client.Port()^1)
 			n.Schedule(Reply{DelayNs: l.Spec.DelayNs, Raw: mk(l.Addr, other), Meta: Meta{ToTTL: -1, Tag: "synack-other-flow", From: l.Addr.Addr(), Flow: -1}})
 		}
+		if l.Spec.NoiseKind != "" && l.Mutate != nil {
+			cl := client
+			if l.Spec.NoiseForeign {
+				cl = netip.AddrPortFrom(client.Addr(), client.Port()^1)
+			}
+			for k, nb := range l.Mutate(l.Spec.NoiseKind, l.Spec.NoiseArg, mk(l.Addr, cl)) {
+				n.Schedule(Reply{DelayNs: int64(k) * 1000, Raw: nb, Meta: Meta{ToTTL: -1, Tag: "handshake-noise", From: l.Addr.Addr(), Flow: -1}})
+			}
+			if l.Spec.DelayNs == 0 {
+				l.Spec.DelayNs = 2_000_000
+			}
+		}
 		copies := l.Spec.Copies
 		if copies < 1 {
 			copies = 1
@@ -482,6 +506,8 @@ func (l *Listener) poll(n *Net) {
 // Shutdown closes real sockets the harness itself opened and reports the accepted count.
 func (n *Net) Shutdown() {
 	for _, l := range n.Listeners {
+		l.Spec.Enabled = false // the execution is over: only count what is still in the accept queue
+		l.Spec.NoiseKind = ""
 		l.poll(n)
 		for _, c := range l.conns {
 			c.Close()
